@@ -27,15 +27,15 @@ ASSUMPTIONS = [
     "which representative of equal keys (e.g. -0.0 / 0.0) is shown in the group column is not pinned",
 ]
 BOUND = {
-    "quick": "one group column: rows 0..3 (0..4 for alphabets <= 4 values) over 'quick' alphabets of f8,i8,u1,b1,str,U,D,us; two group columns: 8 kind pairs x {NA,lo,hi}^2 rows 0..3; 22 helper/lambda pairs",
-    "thorough": "one group column: rows 0..4 (0..5) over 'thorough' alphabets; two group columns: 12 kind pairs rows 0..4",
+    "quick": "long periodic frames of 17 and 40 rows per kind; one group column: rows 0..3 (0..4 for alphabets <= 4 values) over 'quick' alphabets of f8,i8,u1,b1,str,U,D,us; two group columns: 8 kind pairs x {NA,lo,hi}^2 rows 0..3; 22 helper/lambda pairs",
+    "thorough": "long periodic frames of 17, 40, 130, 300 rows; one group column: rows 0..4 (0..5) over 'thorough' alphabets; two group columns: 12 kind pairs rows 0..4",
 }
 TIME_CAP = {"quick": 300, "thorough": 3000}
 
 KINDS = ["f8", "i8", "u1", "b1", "str", "U", "D", "us"]
 PAIRS_Q = [("f8", "str"), ("str", "D"), ("D", "f8"), ("i8", "U"), ("b1", "us"), ("f8", "f8"), ("str", "str"), ("us", "b1")]
 PAIRS_T = PAIRS_Q + [("U", "str"), ("us", "i8"), ("D", "D"), ("u1", "f8")]
-BASE = 7  # digest base > max rows + 1
+BASE = 1009  # digest base > max rows + 1 (Python ints: no overflow)
 
 HELPERS = [
     ("all", {}, "b"), ("any", {}, "b"), ("count", {}, "x"), ("count", {"drop_na": True}, "x"), ("count_unique", {}, "x"),
@@ -57,6 +57,9 @@ def shards(tier):
             out.append({"part": "one", "kind": kind, "tier": tier, "n": n - 1, "first": None})
         else:
             out.append({"part": "one", "kind": kind, "tier": tier, "n": n, "first": None})
+    for kind in KINDS:
+        for length in ([17, 40] if not big else [17, 40, 130, 300]):
+            out.append({"part": "long", "kind": kind, "length": length, "period": 3 if not big else 4})
     for k1, k2 in (PAIRS_T if big else PAIRS_Q):
         n = 4 if big else 3
         for first in range(len(V.alphabet(k1, "key"))):
@@ -267,6 +270,15 @@ def run_shard(shard, rec):
             toks = list(toks)
             cols = [["k", kind, toks]] + payload_cols(len(toks))
             check_case({"cols": cols, "by": ["k"], "ops": ops}, rec)
+    elif shard["part"] == "long":
+        kind, length = shard["kind"], shard["length"]
+        alpha = V.alphabet(kind, "key")
+        core = ["aggregate-core", "count", "split", "modify", "helper:5", "helper:6", "helper:10"]
+        for p in range(1, shard["period"] + 1):
+            for pat in itertools.product(alpha, repeat=p):
+                toks = [pat[i % p] for i in range(length)]
+                cols = [["k", kind, toks]] + payload_cols(length)
+                check_case({"cols": cols, "by": ["k"], "ops": core}, rec)
     else:
         k1, k2 = shard["kinds"]
         a1, a2 = V.alphabet(k1, "key"), V.alphabet(k2, "key")
